@@ -275,7 +275,9 @@ def gen_problem_kwbounds(rng, fmt="LP"):
     """columns whose names spell keywords of the LP format (a keyword is one only in column 1) with free, upper-only,
     lower-only, fixed and boxed bounds; some of them integer"""
     kws = ["end", "min", "max", "int", "st", "bound", "bounds", "integer", "subject", "minimize", "maximize", "End", "END", "Max", "ST", "Int",
-           "problem", "prob", "minimum", "maximum"]
+           "problem", "prob", "minimum", "maximum",
+           # names that only START like the words the bounds reader knows (inf, infinity, free)
+           "free2", "freedom", "Free_x", "infx", "inf1", "INFINITYx", "Inf_", "infinit"]
     n = rng.choice([2, 3, 5, 8])
     rng.shuffle(kws)
     cn = kws[:n]
@@ -286,11 +288,16 @@ def gen_problem_kwbounds(rng, fmt="LP"):
     rn = unique_names(rng, m, fmt, False, taken)
     cols = []
     for j in range(n):
-        k = rng.choice(["free", "free", "up", "up", "negup", "lo", "fixed", "box", "default"])
+        k = rng.choice(["free", "free", "up", "up", "negup", "lo", "lo", "lo", "fixed", "box", "default"])
         a, b = sorted([F(rng.randint(-9, 9)), F(rng.randint(-9, 9), rng.randint(1, 3))])
         lo, up = {"free": (NINF, INF), "up": (F(0), abs(b) + 1), "negup": (NINF, -abs(b) - 1), "lo": (abs(a) + 1, INF), "fixed": (a, a),
                   "box": (a, b), "default": (F(0), INF)}[k]
         cols.append((cn[j], F(rng.randint(-5, 5)), lo, up, rng.random() < 0.25))
+    # a name that starts like free / inf directly after a lower-bound-only column: the reader looks for the word "free" there
+    for j in range(1, n):
+        if cn[j].lower().startswith(("free", "inf")) and rng.random() < 0.8:
+            c = cols[j - 1]
+            cols[j - 1] = (c[0], c[1], F(rng.randint(1, 9)), INF, False)
     rows = []
     for i in range(m):
         ent = [(cn[j], F(rng.choice([-3, -2, -1, 1, 2, 3]))) for j in range(n) if i == 0 or rng.random() < 0.6]
